@@ -19,7 +19,7 @@ fn params() -> GenParams {
         methods: &METHODS,
         max_files: 10,
         allow_enc: true,
-        allow_crcs: false,
+        allow_crcs: true,
         allow_attrs: false,
         many_tiny: true,
     }
@@ -173,8 +173,9 @@ fn ref_file(max_sectors_half: u8) -> impl Strategy<Value = RefFile> {
         prop_oneof![3 => Just(false), 1 => Just(true)],
         enc_strategy(),
         prop_oneof![3 => Just(0u16), 1 => 1u16..700],
+        prop_oneof![2 => Just(false), 1 => Just(true)],
     )
-        .prop_map(|(name, data_class, len, seed, method, single_unit, enc, gap)| RefFile {
+        .prop_map(|(name, data_class, len, seed, method, single_unit, enc, gap, crc)| RefFile {
             name,
             data_class,
             len: len.resolve(512), // resolved against the real shift later
@@ -184,6 +185,7 @@ fn ref_file(max_sectors_half: u8) -> impl Strategy<Value = RefFile> {
             encrypted: enc != Enc::None,
             fix_key: enc == Enc::FixKey,
             gap,
+            crc,
         })
 }
 
@@ -332,6 +334,7 @@ fn grid_b() -> Vec<RefSpec> {
                                 encrypted: enc,
                                 fix_key: fix,
                                 gap: if k % 5 == 0 { 13 } else { 0 },
+                                crc: k % 3 == 1,
                             });
                             k += 1;
                         }
@@ -364,7 +367,7 @@ fn grid_a() -> Vec<ArchiveSpec> {
                             enc,
                         })
                         .collect();
-                    v.push(ArchiveSpec { version, shift, crcs: false, attrs: Attrs::None, listfile: true, compress_tables: false, table_method: M_ZLIB, files });
+                    v.push(ArchiveSpec { version, shift, crcs: v.len() % 2 == 1, attrs: Attrs::None, listfile: true, compress_tables: false, table_method: M_ZLIB, files });
                 }
             }
         }
@@ -376,7 +379,7 @@ fn main() {
     let (check, _args) = Check::new("C02", "exploration");
     check.set_rule(
         "direction A: archives from the C01 generator restricted to the published subset (V1/V2, classic tables, \
-         none/zlib/bzip2, plain/encrypted/fix-key, sector CRC off) are parsed by the independent refmpq reader: header \
+         none/zlib/bzip2, plain/encrypted/fix-key, sector checksums on/off) are parsed by the independent refmpq reader: header \
          fields, table decryption with the fixed keys, reference probing of every name, bit-identical extraction. \
          direction B: abstract archives serialised by refmpq's writer (hash sizes 4..256, probe chains through DELETED \
          markers, gaps, reversed order, header at a 512-aligned offset > 0 after junk, stored/zlib/bzip2, single-unit or \
